@@ -78,6 +78,16 @@ static void enumerateAll(const std::function<void(const Spec &)> &f) {
       s.devs = {{F_maxNbSteps, 3}, {fv.field, v}};
       f(s);
     }
+  // far-out values of every field (zero, negative, huge): explored only when check() rejects them (aux2 = 1) - an accepted
+  // far-out value is a legitimate, possibly very long, run and not this property's business
+  for (auto &fv : T)
+    for (double v : {0.0, -1.0, -1e9, 1e-3, 0.3, 1e9}) {
+      Spec s = b;
+      s.aux = 1;
+      s.aux2 = 1;
+      s.devs = {{F_maxNbSteps, 3}, {fv.field, v}};
+      f(s);
+    }
   // pairs
   for (size_t i = 0; i < T.size(); ++i)
     for (size_t j = i + 1; j < T.size(); ++j) {
@@ -145,6 +155,7 @@ static vf::Verdicts eval(const Spec &s, vf::Ctx &ctx) {
     ColoquinteParameters p = makeParams(s);
     CallResult chk = guarded([&] { p.check(); });
     if (chk.threw && !chk.stdExc) fail("check-throws-non-std", describe(s));
+    if (s.aux2 == 1 && !chk.threw) { ctx.count("far_out_values_accepted_by_check_not_run"); return out; }
     for (int st = 0; st < 3; ++st) {
       Circuit c = build(s);
       Snapshot before = snapshot(c);
@@ -259,7 +270,7 @@ int main(int argc, char **argv) {
   c.level = "exploration";
   c.rule =
       "every effort in -16..32 and 8 extreme 32-bit values through ColoquinteParameters(effort[,seed]) and the effort entry points; every parameter field driven just below / at / "
-      "just above each bound of its documented range, one at a time and in pairs (quick: a fixed third of the field pairs): agreement test between check() and "
+      "just above each bound of its documented range, one at a time and in pairs (quick: a fixed third of the field pairs), plus the far-out values {0, -1, -1e9, 1e-3, 0.3, 1e9} of every field when check() rejects them: agreement test between check() and "
       "placeGlobal/legalize/placeDetailed (rejected => all three throw, callback never invoked, circuit unchanged; accepted => sanitizer-clean); every Circuit setter with lengths "
       "{0, n-1, n+1, 2n}; addNet/setNets with inconsistent lengths, pin cells -1, n, INT_MAX, malformed limits, also on circuits with zero and one cell; all under ASan+UBSan+libstdc++ assertions";
   c.bounds = gThorough ? "all field pairs" : "one third of field pairs";
